@@ -111,7 +111,7 @@ def carriers(rng, bits, n, talker_table=TALKERS):
         perm = list(range(len(lines)))
         rng.shuffle(perm)
         lines = [lines[i] for i in perm]
-        trailer = rng.choice([b'', b'\r\n', b'\n', b' ', b'\t', b' \r\n'])
+        trailer = rng.choice([b'', b'\r\n', b'\n', b' ', b'\t', b' \r\n', b'\r\n ', b'\n\t', b'\r \n', b'\r\n\r\n', b' \n \n'])
         lines = [l + trailer for l in lines]
         tagged = rng.random() < 0.3
         if tagged:
